@@ -33,6 +33,7 @@ import (
 	"go/format"
 	"go/token"
 	"go/types"
+	"golang.org/x/tools/go/ast/astutil"
 	"os"
 	"reflect"
 	"regexp"
@@ -402,6 +403,7 @@ type pkgInliner struct {
 	softRefused  map[string]string
 	expanded     map[*types.Func]*ast.BlockStmt  // helper -> its body with nested helper calls expanded
 	expandedDeps map[*types.Func][]*ast.FuncDecl // helpers whose code is part of an expanded body
+	curHelper    *types.Func                     // the helper whose own body is being expanded (bottom-up phase), or nil
 	tailReturn   bool                            // the call being expanded is the operand of a return statement
 
 	curDecl    *ast.FuncDecl
@@ -415,6 +417,7 @@ type pkgInliner struct {
 func normalise(roots []*packages.Package, inv map[string]string, base map[string][]byte) (map[string][]byte, *normReport) {
 	rep := &normReport{Inlined: map[string]int{}, Refused: map[string]string{}, Into: map[string]bool{}}
 	overlay := map[string][]byte{}
+	collectSentinelVars(roots)
 	counter := 0
 	var inliners []*pkgInliner
 	defer func() {
@@ -581,6 +584,7 @@ func (in *pkgInliner) run(inv map[string]string) map[*ast.File][]fileEdit {
 		}
 		in.curDecl, in.curFile = fd, in.fileOf[fd]
 		in.curLocals = in.localNames(fd)
+		in.curHelper = h
 		body := in.cl.node(fd.Body).(*ast.BlockStmt)
 		for round := 0; round < 40; round++ {
 			if !in.round(body) {
@@ -588,11 +592,8 @@ func (in *pkgInliner) run(inv map[string]string) map[*ast.File][]fileEdit {
 			}
 		}
 		in.expanded[h] = body
-		for _, g := range callsOf(fd) {
-			in.expandedDeps[h] = append(in.expandedDeps[h], in.decls[g])
-			in.expandedDeps[h] = append(in.expandedDeps[h], in.expandedDeps[g]...)
-		}
 	}
+	in.curHelper = nil
 	edits := map[*ast.File][]fileEdit{}
 	for _, fd := range order {
 		obj := in.info.Defs[fd.Name].(*types.Func)
@@ -882,6 +883,9 @@ func (in *pkgInliner) compat(callee *ast.FuncDecl) string {
 
 // round rewrites every statement list of body once; reports whether anything changed.
 func (in *pkgInliner) round(body *ast.BlockStmt) bool {
+	if in.substituteExprHelpers(body) {
+		return true
+	}
 	var holders []ast.Node
 	ast.Inspect(body, func(n ast.Node) bool {
 		switch n.(type) {
@@ -938,6 +942,7 @@ func (in *pkgInliner) rewriteList(list []ast.Stmt) ([]ast.Stmt, bool) {
 type param struct {
 	name string // "" or "_" = unnamed
 	typ  ast.Expr
+	id   *ast.Ident // the declaring identifier (nil when unnamed)
 }
 
 func flatten(fl *ast.FieldList) []param {
@@ -947,17 +952,43 @@ func flatten(fl *ast.FieldList) []param {
 	}
 	for _, f := range fl.List {
 		if len(f.Names) == 0 {
-			out = append(out, param{"", f.Type})
+			out = append(out, param{"", f.Type, nil})
 			continue
 		}
 		for _, n := range f.Names {
-			out = append(out, param{n.Name, f.Type})
+			out = append(out, param{n.Name, f.Type, n})
 		}
 	}
 	return out
 }
 
 func ident(name string) *ast.Ident { return ast.NewIdent(name) }
+
+// identLike: a new identifier that stands for the same variable as tmpl (it is renamed together with it when the
+// code is expanded again elsewhere).
+func (in *pkgInliner) identLike(tmpl *ast.Ident, name string) *ast.Ident {
+	n := ast.NewIdent(name)
+	if tmpl != nil {
+		if o, ok := in.cl.orig[tmpl]; ok {
+			in.cl.orig[n] = o
+		} else {
+			in.cl.orig[n] = tmpl
+		}
+	}
+	return n
+}
+
+func varDeclID(id *ast.Ident, typ ast.Expr, val ast.Expr) ast.Stmt {
+	vs := &ast.ValueSpec{Names: []*ast.Ident{id}, Type: typ}
+	if val != nil {
+		vs.Values = []ast.Expr{val}
+	}
+	return &ast.DeclStmt{Decl: &ast.GenDecl{Tok: token.VAR, Specs: []ast.Spec{vs}}}
+}
+
+func useStmtID(id *ast.Ident) ast.Stmt {
+	return &ast.AssignStmt{Lhs: []ast.Expr{ident("_")}, Tok: token.ASSIGN, Rhs: []ast.Expr{id}}
+}
 
 func varDecl(name string, typ ast.Expr, val ast.Expr) ast.Stmt {
 	vs := &ast.ValueSpec{Names: []*ast.Ident{ident(name)}, Type: typ}
@@ -1022,8 +1053,8 @@ func (in *pkgInliner) expandStmt(s ast.Stmt, rest []ast.Stmt) (repl []ast.Stmt, 
 							if used {
 								return nil, 0, false
 							}
-							pre = append(pre, varDecl(id.Name, in.cl.expr(res[i].typ), nil))
-							post = append(post, useStmt(id.Name))
+							pre = append(pre, varDeclID(in.identLike(id, id.Name), in.cl.expr(res[i].typ), nil))
+							post = append(post, useStmtID(in.identLike(id, id.Name)))
 						}
 					}
 				}
@@ -1245,39 +1276,39 @@ func (in *pkgInliner) threadable(as *ast.AssignStmt, fo *types.Func, rest []ast.
 	if n == 0 || n != len(as.Lhs) {
 		return nil
 	}
-	errT := types.Universe.Lookup("error").Type()
-	names := map[string]int{}
-	for i, l := range as.Lhs {
+	// the guards are evaluated after the call's targets were assigned, so any condition is fine; they are worth
+	// copying when they test at least one of the targets
+	names := map[string]bool{}
+	for _, l := range as.Lhs {
 		if id, ok := l.(*ast.Ident); ok && id.Name != "_" {
-			names[id.Name] = i
+			names[id.Name] = true
+		} else if !isBlank(l) {
+			return nil // a target that is not a plain variable: keep the call's continuation as it is
 		}
 	}
 	var out []guard
-	used := map[int]bool{}
 	for _, st := range rest {
 		ifs, ok := st.(*ast.IfStmt)
 		if !ok || ifs.Init != nil || ifs.Else != nil || len(ifs.Body.List) == 0 {
 			break
 		}
-		g := guard{ifs: ifs, idx: -1}
-		if id := nonNilTestIdent(ifs.Cond); id != "" {
-			if i, ok := names[id]; ok && types.Identical(sig.Results().At(i).Type(), errT) {
-				g.idx, g.kind = i, gErr
-			}
-		} else if id, pol := boolTestIdent(ifs.Cond); id != "" {
-			if i, ok := names[id]; ok {
-				if b, isB := sig.Results().At(i).Type().Underlying().(*types.Basic); isB && b.Kind() == types.Bool {
-					g.idx = i
-					g.kind = gFalse
-					if pol {
-						g.kind = gTrue
-					}
+		mentions := false
+		pure := true
+		ast.Inspect(ifs.Cond, func(n ast.Node) bool {
+			switch x := n.(type) {
+			case *ast.Ident:
+				if names[x.Name] {
+					mentions = true
 				}
+			case *ast.FuncLit:
+				pure = false
 			}
-		}
-		if g.idx < 0 || used[g.idx] {
+			return true
+		})
+		if !mentions || !pure {
 			break
 		}
+		g := guard{ifs: ifs, idx: 0}
 		switch last := ifs.Body.List[len(ifs.Body.List)-1].(type) {
 		case *ast.ReturnStmt:
 		case *ast.BranchStmt:
@@ -1319,11 +1350,86 @@ func (in *pkgInliner) threadable(as *ast.AssignStmt, fo *types.Func, rest []ast.
 		if bad {
 			break
 		}
-		// the body must not write the other tested results (it terminates, so later guards are unaffected anyway)
-		used[g.idx] = true
 		out = append(out, g)
 	}
 	return out
+}
+
+// partialCond evaluates condition c knowing the literal class of some variables (synNil, synNonNil, synTrue,
+// synFalse by name). Returns (decided, value, residual): residual is the simplified condition when not decided.
+func partialCond(c ast.Expr, known map[string]int) (bool, bool, ast.Expr) {
+	switch x := c.(type) {
+	case *ast.ParenExpr:
+		d, v, r := partialCond(x.X, known)
+		if d {
+			return true, v, nil
+		}
+		return false, false, &ast.ParenExpr{X: r}
+	case *ast.Ident:
+		switch known[x.Name] {
+		case synTrue:
+			return true, true, nil
+		case synFalse:
+			return true, false, nil
+		}
+	case *ast.UnaryExpr:
+		if x.Op == token.NOT {
+			d, v, r := partialCond(x.X, known)
+			if d {
+				return true, !v, nil
+			}
+			return false, false, &ast.UnaryExpr{Op: token.NOT, X: r}
+		}
+	case *ast.BinaryExpr:
+		switch x.Op {
+		case token.LAND, token.LOR:
+			dl, vl, rl := partialCond(x.X, known)
+			dr, vr, rr := partialCond(x.Y, known)
+			isAnd := x.Op == token.LAND
+			if dl {
+				if vl != isAnd { // false && _  /  true || _
+					return true, vl, nil
+				}
+				// true && y  /  false || y  ==  y
+				if dr {
+					return true, vr, nil
+				}
+				return false, false, rr
+			}
+			if dr && vr == isAnd { // x && true / x || false == x
+				return false, false, rl
+			}
+			if dr {
+				// x && false / x || true: x is still evaluated; keep the literal on the right
+				lit := "false"
+				if vr {
+					lit = "true"
+				}
+				return false, false, &ast.BinaryExpr{X: rl, Op: x.Op, Y: ast.NewIdent(lit)}
+			}
+			return false, false, &ast.BinaryExpr{X: rl, Op: x.Op, Y: rr}
+		case token.EQL, token.NEQ:
+			xi, xok := unparen(x.X).(*ast.Ident)
+			yi, yok := unparen(x.Y).(*ast.Ident)
+			if xok && yok {
+				var v *ast.Ident
+				if yi.Name == "nil" {
+					v = xi
+				} else if xi.Name == "nil" {
+					v = yi
+				}
+				if v != nil {
+					switch known[v.Name] {
+					case synNil:
+						return true, x.Op == token.EQL, nil
+					case synNonNil:
+						return true, x.Op == token.NEQ, nil
+					}
+				}
+			}
+		}
+	}
+	return false, false, c
 }
 
 // boolTestIdent: c is `x`, `!x`, `x == true/false`, `x != true/false`; pol = the value of x for which c holds.
@@ -1395,7 +1501,7 @@ func (in *pkgInliner) inlineCall(call *ast.CallExpr, fo *types.Func, lhs []ast.E
 		delete(in.H, fo)
 		return nil
 	}
-	if hasDefer(in.bodyOf(fo)) {
+	if hasDefer(in.bodyOf(fo)) && !(onlyBodyCloseDefers(in.bodyOf(fo)) && !in.tailReturn) {
 		if !in.tailReturn {
 			in.softRefused[key] = "defers, and is called outside a return statement"
 			return nil
@@ -1514,7 +1620,21 @@ func (in *pkgInliner) inlineCall(call *ast.CallExpr, fo *types.Func, lhs []ast.E
 			stmts = append(stmts, varDecl("_", p.typ, arg))
 			return
 		}
-		stmts = append(stmts, varDecl(p.name, p.typ, arg), useStmt(p.name))
+		// a function-typed parameter bound to a function constant (f, pkg.F, (*T).M) and never reassigned:
+		// substitute it, so that the calls through it are static calls again
+		if _, isFn := p.typ.(*ast.FuncType); isFn && in.isFuncConst(arg) && !assignedIn(body, p.name) {
+			body = astutil.Apply(body, nil, func(c *astutil.Cursor) bool {
+				if id, ok := c.Node().(*ast.Ident); ok && id.Name == p.name {
+					if _, isField := c.Parent().(*ast.SelectorExpr); isField && c.Name() == "Sel" {
+						return true
+					}
+					c.Replace(in.cl.node(arg).(ast.Expr))
+				}
+				return true
+			}).(*ast.BlockStmt)
+			return
+		}
+		stmts = append(stmts, varDeclID(in.identLike(p.id, p.name), p.typ, arg), useStmtID(in.identLike(p.id, p.name)))
 	}
 	if recv != nil {
 		bind(flatten(recv)[0], recvArg)
@@ -1526,15 +1646,19 @@ func (in *pkgInliner) inlineCall(call *ast.CallExpr, fo *types.Func, lhs []ast.E
 	cres := flatten(typ.Results)
 	named := len(cres) > 0 && cres[0].name != ""
 	var namedIdents []string
+	var namedTmpl []*ast.Ident
 	if named {
 		for _, r := range cres {
 			n := r.name
+			tmpl := r.id
 			if n == "_" {
 				in.counter++
 				n = fmt.Sprintf("blank_r%d", in.counter)
+				tmpl = nil
 			}
 			namedIdents = append(namedIdents, n)
-			stmts = append(stmts, varDecl(n, r.typ, nil), useStmt(n))
+			namedTmpl = append(namedTmpl, tmpl)
+			stmts = append(stmts, varDeclID(in.identLike(tmpl, n), r.typ, nil), useStmtID(in.identLike(tmpl, n)))
 		}
 	}
 
@@ -1560,7 +1684,7 @@ func (in *pkgInliner) inlineCall(call *ast.CallExpr, fo *types.Func, lhs []ast.E
 	if in.tailReturn {
 		tail = true
 	}
-	rc := &retCtx{tailReturn: in.tailReturn, in: in, lhs: lhs, named: namedIdents, nres: len(cres), guards: guards, label: "ret" + suf, noBreak: tail}
+	rc := &retCtx{tailReturn: in.tailReturn, in: in, lhs: lhs, named: namedIdents, namedTmpl: namedTmpl, nres: len(cres), guards: guards, label: "ret" + suf, noBreak: tail}
 	body.List = rc.stmts(body.List, map[string]bool{}, true)
 	if tail {
 		stmts = append(stmts, body.List...)
@@ -1572,6 +1696,11 @@ func (in *pkgInliner) inlineCall(call *ast.CallExpr, fo *types.Func, lhs []ast.E
 		stmts = append(stmts, sw)
 	}
 	in.rep.Inlined[key]++
+	if in.curHelper != nil {
+		// the code of fo (and of what was expanded inside it) is now part of the helper being prepared
+		in.expandedDeps[in.curHelper] = append(in.expandedDeps[in.curHelper], fd)
+		in.expandedDeps[in.curHelper] = append(in.expandedDeps[in.curHelper], in.expandedDeps[fo]...)
+	}
 	return &ast.BlockStmt{List: stmts}
 }
 
@@ -1581,6 +1710,7 @@ type retCtx struct {
 	named      []string
 	nres       int
 	guards     []guard
+	namedTmpl  []*ast.Ident
 	tailReturn bool
 	label      string
 	noBreak    bool
@@ -1714,6 +1844,13 @@ func (rc *retCtx) classify(e ast.Expr, nn map[string]bool) int {
 		if nn[x.Name] {
 			return synNonNil
 		}
+		if rc.in.isSentinelVar(x) {
+			return synNonNil
+		}
+	case *ast.SelectorExpr:
+		if rc.in.isSentinelVar(x.Sel) {
+			return synNonNil
+		}
 	case *ast.CallExpr:
 		if sel, ok := x.Fun.(*ast.SelectorExpr); ok {
 			if fo, ok := rc.in.objOf(sel.Sel).(*types.Func); ok {
@@ -1737,14 +1874,21 @@ func (rc *retCtx) ret(st *ast.ReturnStmt, nn map[string]bool) ast.Stmt {
 	in := rc.in
 	var out []ast.Stmt
 	vals := st.Results
+	nid := func(i int) *ast.Ident {
+		var t *ast.Ident
+		if i < len(rc.namedTmpl) {
+			t = rc.namedTmpl[i]
+		}
+		return in.identLike(t, rc.named[i])
+	}
 	if rc.tailReturn {
 		if rc.named == nil {
 			return st
 		}
 		var l, v []ast.Expr
-		for _, n := range rc.named {
-			l = append(l, ident(n))
-			v = append(v, ident(n))
+		for i := range rc.named {
+			l = append(l, nid(i))
+			v = append(v, nid(i))
 		}
 		if len(vals) > 0 {
 			out = append(out, assign(l, vals))
@@ -1754,15 +1898,22 @@ func (rc *retCtx) ret(st *ast.ReturnStmt, nn map[string]bool) ast.Stmt {
 	}
 	var cur []ast.Expr
 	if rc.named != nil {
-		if len(vals) > 0 {
+		// `return a, b` where a, b are the named results themselves assigns nothing
+		same := len(vals) == len(rc.named)
+		for i := range vals {
+			if id, ok := vals[i].(*ast.Ident); !same || !ok || id.Name != rc.named[i] {
+				same = false
+			}
+		}
+		if len(vals) > 0 && !same {
 			var l []ast.Expr
-			for _, n := range rc.named {
-				l = append(l, ident(n))
+			for i := range rc.named {
+				l = append(l, nid(i))
 			}
 			out = append(out, assign(l, vals))
 		}
-		for _, n := range rc.named {
-			cur = append(cur, ident(n))
+		for i := range rc.named {
+			cur = append(cur, nid(i))
 		}
 	} else {
 		cur = vals
@@ -1778,30 +1929,35 @@ func (rc *retCtx) ret(st *ast.ReturnStmt, nn map[string]bool) ast.Stmt {
 		}
 		out = append(out, assign(l, vals))
 	}
-	for _, g := range rc.guards {
-		cls := synUnknown
-		if len(vals) == rc.nres && len(vals) > 0 {
-			cls = rc.classify(vals[g.idx], nn)
-		} else if len(vals) == 0 && rc.named != nil && g.kind == gErr && nn[rc.named[g.idx]] {
-			cls = synNonNil
+	if len(rc.guards) > 0 {
+		// what is known about the call's targets at this return
+		known := map[string]int{}
+		for i, l := range rc.lhs {
+			id, ok := l.(*ast.Ident)
+			if !ok || id.Name == "_" {
+				continue
+			}
+			cls := synUnknown
+			if len(vals) == rc.nres && len(vals) > 0 {
+				cls = rc.classify(vals[i], nn)
+			} else if len(vals) == 0 && rc.named != nil && i < len(rc.named) && nn[rc.named[i]] {
+				cls = synNonNil
+			}
+			if cls != synUnknown {
+				known[id.Name] = cls
+			}
 		}
-		runs, decided := false, false
-		switch g.kind {
-		case gErr:
-			decided, runs = cls == synNil || cls == synNonNil, cls == synNonNil
-		case gTrue:
-			decided, runs = cls == synTrue || cls == synFalse, cls == synTrue
-		case gFalse:
-			decided, runs = cls == synTrue || cls == synFalse, cls == synFalse
+		for _, g := range rc.guards {
+			decided, runs, residual := partialCond(in.cl.expr(g.ifs.Cond), known)
+			if decided && runs {
+				out = append(out, in.cl.stmts(g.ifs.Body.List)...)
+				break
+			}
+			if decided {
+				continue
+			}
+			out = append(out, &ast.IfStmt{Cond: residual, Body: in.cl.node(g.ifs.Body).(*ast.BlockStmt)})
 		}
-		if decided && runs {
-			out = append(out, in.cl.stmts(g.ifs.Body.List)...)
-			break
-		}
-		if decided {
-			continue
-		}
-		out = append(out, &ast.IfStmt{Cond: in.cl.expr(g.ifs.Cond), Body: in.cl.node(g.ifs.Body).(*ast.BlockStmt)})
 	}
 	if !rc.noBreak {
 		out = append(out, &ast.BranchStmt{Tok: token.BREAK, Label: ident(rc.label)})
@@ -2079,4 +2235,308 @@ func resolveConstRenames(roots []*packages.Package) (map[string]string, []string
 	}
 	sort.Strings(notes)
 	return out, notes
+}
+
+// onlyBodyCloseDefers: every defer of the helper is `x.Body.Close()` (release of an HTTP response body). Such a
+// helper is expanded anywhere: the only difference is that the body is closed when the caller returns instead of
+// when the helper returned, which none of the properties observes.
+func onlyBodyCloseDefers(body *ast.BlockStmt) bool {
+	ok := true
+	n := 0
+	ast.Inspect(body, func(x ast.Node) bool {
+		switch d := x.(type) {
+		case *ast.FuncLit:
+			return false
+		case *ast.DeferStmt:
+			n++
+			sel, isSel := d.Call.Fun.(*ast.SelectorExpr)
+			if !isSel || sel.Sel.Name != "Close" || len(d.Call.Args) != 0 {
+				ok = false
+				return false
+			}
+			inner, isSel2 := sel.X.(*ast.SelectorExpr)
+			if !isSel2 || inner.Sel.Name != "Body" {
+				ok = false
+			}
+		}
+		return ok
+	})
+	return ok && n > 0
+}
+
+// sentinelVars: package-level error variables of the module initialised with errors.New / fmt.Errorf.
+var sentinelVars = map[*types.Var]bool{}
+
+func collectSentinelVars(roots []*packages.Package) {
+	sentinelVars = map[*types.Var]bool{}
+	for _, p := range roots {
+		if !strings.HasPrefix(p.PkgPath, libPath) || p.TypesInfo == nil {
+			continue
+		}
+		for _, f := range p.Syntax {
+			for _, d := range f.Decls {
+				gd, ok := d.(*ast.GenDecl)
+				if !ok || gd.Tok != token.VAR {
+					continue
+				}
+				for _, sp := range gd.Specs {
+					vs, ok := sp.(*ast.ValueSpec)
+					if !ok {
+						continue
+					}
+					for i, n := range vs.Names {
+						v, ok := p.TypesInfo.Defs[n].(*types.Var)
+						if !ok || i >= len(vs.Values) {
+							continue
+						}
+						if c, ok := vs.Values[i].(*ast.CallExpr); ok {
+							if sel, ok := c.Fun.(*ast.SelectorExpr); ok {
+								if fo, ok := p.TypesInfo.Uses[sel.Sel].(*types.Func); ok {
+									switch fo.FullName() {
+									case "errors.New", "fmt.Errorf":
+										sentinelVars[v] = true
+									}
+								}
+							}
+						}
+					}
+				}
+			}
+		}
+	}
+}
+
+// isSentinelVar: id names a sentinel error variable of the module (never reassigned by convention): a non-nil error.
+func (in *pkgInliner) isSentinelVar(id *ast.Ident) bool {
+	v, ok := in.objOf(id).(*types.Var)
+	if !ok {
+		return false
+	}
+	if sentinelVars[v] {
+		return true
+	}
+	// exported error variables of other packages (io.EOF, io.ErrUnexpectedEOF, os.ErrNotExist, ...)
+	if v.Pkg() != nil && v.Parent() == v.Pkg().Scope() && !strings.HasPrefix(v.Pkg().Path(), libPath) &&
+		types.Identical(v.Type(), types.Universe.Lookup("error").Type()) && (strings.HasPrefix(v.Name(), "Err") || v.Name() == "EOF") {
+		return true
+	}
+	return false
+}
+
+// substituteExprHelpers: a helper whose body is a single `return <expr>` is an expression with a name. A call of it
+// whose arguments (and receiver) are simple and free of effects is replaced, wherever it stands (conditions
+// included), by that expression with the arguments substituted — exactly what the caller would have written.
+func (in *pkgInliner) substituteExprHelpers(body *ast.BlockStmt) bool {
+	changed := false
+	astutil.Apply(body, nil, func(c *astutil.Cursor) bool {
+		call, ok := c.Node().(*ast.CallExpr)
+		if !ok {
+			return true
+		}
+		fo := in.calleeObj(call)
+		if fo == nil || !in.H[fo] {
+			return true
+		}
+		fd := in.decls[fo]
+		src := in.bodyOf(fo)
+		if len(src.List) != 1 || call.Ellipsis.IsValid() {
+			return true
+		}
+		ret, ok := src.List[0].(*ast.ReturnStmt)
+		if !ok || len(ret.Results) != 1 {
+			return true
+		}
+		if fd.Type.Results == nil || len(fd.Type.Results.List) != 1 || len(fd.Type.Results.List[0].Names) != 0 {
+			return true
+		}
+		params := flatten(fd.Type.Params)
+		if len(params) != len(call.Args) {
+			return true
+		}
+		if why := in.compat(fd); why != "" {
+			return true
+		}
+		// argument -> parameter object
+		simple := func(e ast.Expr) bool {
+			ok := true
+			ast.Inspect(e, func(n ast.Node) bool {
+				switch x := n.(type) {
+				case nil, *ast.Ident, *ast.SelectorExpr, *ast.BasicLit, *ast.ParenExpr, *ast.StarExpr:
+				case *ast.UnaryExpr:
+					if x.Op != token.AND && x.Op != token.SUB && x.Op != token.NOT {
+						ok = false
+					}
+				default:
+					ok = false
+				}
+				return ok
+			})
+			return ok
+		}
+		subst := map[types.Object]ast.Expr{}
+		sig := fo.Type().(*types.Signature)
+		for i, p := range params {
+			if !simple(call.Args[i]) {
+				return true
+			}
+			if p.id == nil || p.name == "_" {
+				continue
+			}
+			obj := in.info.Defs[p.id]
+			if obj == nil {
+				return true
+			}
+			arg := call.Args[i]
+			var at types.Type
+			if oa, ok := in.o(arg).(ast.Expr); ok {
+				at = in.info.TypeOf(oa)
+			}
+			pt := sig.Params().At(i).Type()
+			if at == nil || !types.Identical(at, pt) {
+				// keep the conversion the call performed (untyped constants, concrete values passed as interfaces)
+				arg = &ast.CallExpr{Fun: &ast.ParenExpr{X: in.cl.expr(p.typ)}, Args: []ast.Expr{arg}}
+			}
+			subst[obj] = arg
+		}
+		if fd.Recv != nil {
+			sel, ok := unparen(call.Fun).(*ast.SelectorExpr)
+			if !ok || !simple(sel.X) {
+				return true
+			}
+			osel, _ := in.o(sel).(*ast.SelectorExpr)
+			if osel == nil {
+				return true
+			}
+			if s := in.info.Selections[osel]; s == nil || len(s.Index()) != 1 {
+				return true
+			}
+			ox, ok := in.o(sel.X).(ast.Expr)
+			if !ok {
+				return true
+			}
+			xt := in.info.TypeOf(ox)
+			rt := sig.Recv().Type()
+			var recvArg ast.Expr
+			switch {
+			case xt == nil:
+				return true
+			case types.Identical(xt, rt):
+				recvArg = sel.X
+			case func() bool { p, ok := rt.(*types.Pointer); return ok && types.Identical(p.Elem(), xt) }():
+				recvArg = &ast.UnaryExpr{Op: token.AND, X: sel.X}
+			case func() bool { p, ok := xt.(*types.Pointer); return ok && types.Identical(p.Elem(), rt) }():
+				recvArg = &ast.StarExpr{X: sel.X}
+			default:
+				return true
+			}
+			rp := flatten(fd.Recv)
+			if len(rp) == 1 && rp[0].id != nil && rp[0].name != "_" {
+				if obj := in.info.Defs[rp[0].id]; obj != nil {
+					subst[obj] = recvArg
+				}
+			}
+		}
+		// the expression must not contain function literals or further declarations
+		okExpr := true
+		ast.Inspect(ret.Results[0], func(n ast.Node) bool {
+			if _, isLit := n.(*ast.FuncLit); isLit {
+				okExpr = false
+			}
+			return okExpr
+		})
+		if !okExpr {
+			return true
+		}
+		expr := in.cl.expr(ret.Results[0])
+		expr = astutil.Apply(expr, nil, func(c2 *astutil.Cursor) bool {
+			id, ok := c2.Node().(*ast.Ident)
+			if !ok {
+				return true
+			}
+			// not the selector part of x.f, not a key of a struct literal
+			if p, ok := c2.Parent().(*ast.SelectorExpr); ok && p.Sel == id {
+				return true
+			}
+			if obj := in.objOf(id); obj != nil {
+				if a, ok := subst[obj]; ok {
+					c2.Replace(&ast.ParenExpr{X: in.cl.expr(a)})
+				}
+			}
+			return true
+		}).(ast.Expr)
+		// result conversion: the helper's declared result type
+		var et types.Type
+		if oe, ok := in.o(ret.Results[0]).(ast.Expr); ok {
+			et = in.info.TypeOf(oe)
+		}
+		var repl ast.Expr = &ast.ParenExpr{X: expr}
+		if et == nil || !types.Identical(et, sig.Results().At(0).Type()) {
+			repl = &ast.CallExpr{Fun: &ast.ParenExpr{X: in.cl.expr(fd.Type.Results.List[0].Type)}, Args: []ast.Expr{expr}}
+		}
+		c.Replace(repl)
+		in.rep.Inlined[declKey(in.p.PkgPath, fd)]++
+		if in.curHelper != nil {
+			in.expandedDeps[in.curHelper] = append(in.expandedDeps[in.curHelper], fd)
+			in.expandedDeps[in.curHelper] = append(in.expandedDeps[in.curHelper], in.expandedDeps[fo]...)
+		}
+		changed = true
+		return true
+	})
+	return changed
+}
+
+// isFuncConst: e denotes a declared function or a method expression (a constant of function type).
+func (in *pkgInliner) isFuncConst(e ast.Expr) bool {
+	for {
+		p, ok := e.(*ast.ParenExpr)
+		if !ok {
+			break
+		}
+		e = p.X
+	}
+	switch x := in.o(e).(type) {
+	case *ast.Ident:
+		_, ok := in.info.Uses[x].(*types.Func)
+		return ok
+	case *ast.SelectorExpr:
+		if sel, ok := in.info.Selections[x]; ok {
+			return sel.Kind() == types.MethodExpr
+		}
+		_, ok := in.info.Uses[x.Sel].(*types.Func)
+		return ok
+	}
+	return false
+}
+
+// assignedIn: the identifier name is assigned, incremented or has its address taken in n.
+func assignedIn(n ast.Node, name string) bool {
+	found := false
+	isName := func(e ast.Expr) bool {
+		id, ok := e.(*ast.Ident)
+		return ok && id.Name == name
+	}
+	ast.Inspect(n, func(m ast.Node) bool {
+		switch x := m.(type) {
+		case *ast.AssignStmt:
+			for _, l := range x.Lhs {
+				if isName(l) {
+					found = true
+				}
+			}
+		case *ast.IncDecStmt:
+			if isName(x.X) {
+				found = true
+			}
+		case *ast.UnaryExpr:
+			if x.Op == token.AND && isName(x.X) {
+				found = true
+			}
+		case *ast.RangeStmt:
+			if (x.Key != nil && isName(x.Key)) || (x.Value != nil && isName(x.Value)) {
+				found = true
+			}
+		}
+		return true
+	})
+	return found
 }
